@@ -141,6 +141,9 @@ func serialJudge(env *core.Env, check string, sc sched.Scenario, claims bool) fu
 					return check + " kind=winner-not-the-claimant", fmt.Sprintf("%s was told it won %s but claimed_by=%q", agent, title(id), sh.ClaimedBy)
 				}
 			}
+			if len(won) > 0 && (strings.Contains(sc.Name, "S_none") || strings.Contains(sc.Name, "nothing-ready")) {
+				return check + " kind=task-handed-out-although-nothing-is-ready", fmt.Sprintf("the store of this scenario has no ready task (and no command of the scenario makes one ready), yet: %v", desc)
+			}
 			for id, n := range won {
 				if n > 1 && !putBackIn(sc) {
 					return check + " kind=task-handed-to-two-claimants", fmt.Sprintf("%s returned to %d invocations: %v", title(id), n, desc)
@@ -190,6 +193,29 @@ func runC01(env *core.Env) {
 	add("2-claimers+compact/S_A-legacy-file", legacyNamed(f.SA), claimReq("a1"), claimReq("a2"), core.R("", "--json", "compact"))
 	add("claimer+init/S_A-legacy-file", legacyNamed(f.SA), claimReq("a1"), core.R("", "--json", "init"))
 	{
+		// nothing is ready although a task is todo: its epic waits for an epic whose only unfinished child is in state error;
+		// another todo task is claimed-but-todo (what a torn claim leaves), a third depends on a blocked one
+		l := newSynLog()
+		pre, dep := core.IDFor(9811), core.IDFor(9812)
+		x, y, z, b, c := core.IDFor(9813), core.IDFor(9814), core.IDFor(9815), core.IDFor(9816), core.IDFor(9817)
+		l.Create(SynItem{ID: pre, Epic: true, Title: "PRE"})
+		l.Create(SynItem{ID: dep, Epic: true, Title: "DEP"})
+		l.Create(SynItem{ID: x, Title: "x failed", In: pre})
+		l.Create(SynItem{ID: y, Title: "y waits for PRE", In: dep})
+		l.Create(SynItem{ID: z, Title: "z claimed but todo"})
+		l.Create(SynItem{ID: b, Title: "b blocked"})
+		l.Create(SynItem{ID: c, Title: "c waits for b"})
+		l.Link(dep, pre)
+		l.Link(c, b)
+		l.Claim(x, "w")
+		l.State(x, "doing")
+		l.State(x, "error")
+		l.Claim(z, "torn")
+		l.State(b, "blocked")
+		nothing := core.Store{".ergo/plans.jsonl": l.Bytes(), ".ergo/lock": nil}
+		add("2-claimers/nothing-ready", nothing, claimReq("a1"), claimReq("a2", "--epic", dep))
+	}
+	{
 		// one ready task whose creation is stamped ahead of this machine's clock (created on a host with a fast clock):
 		// the claim that takes it is stamped earlier than the task's own creation. Two claimers and a compact.
 		l := newSynLog()
@@ -203,6 +229,8 @@ func runC01(env *core.Env) {
 		add("3-claimers/S_one", f.SOne, claimReq("a1"), claimReq("a2"), claimReq("a3"))
 	}
 	st := newSchedStats()
+	// cheap phases first, so that a slow machine cannot push them past the deadline
+	st.PerScenario["io-error-phase"] = faultPhase(env, "C01", f.SA, []crashCmd{{"claim", claimReq("a1")}, {"claim--epic", claimReq("a1", "--epic", f.E1)}})
 	for _, sc := range scs {
 		if !env.TimeLeft() {
 			st.Exhaustive = false
@@ -231,7 +259,6 @@ func runC01(env *core.Env) {
 		})
 		env.Logf("scenario %s done: %v", sc.Name, st.PerScenario[sc.Name])
 	}
-	st.PerScenario["io-error-phase"] = faultPhase(env, "C01", f.SA, []crashCmd{{"claim", claimReq("a1")}, {"claim--epic", claimReq("a1", "--epic", f.E1)}})
 	finishSched(env, st, "every interleaving of the hooked shared-state steps of 2-4 real claim processes (alone and with a put-back, dependency-finishing, creating, pruning or compacting writer) up to the preemption bound; oracle: serial equivalence on the real implementation in an order consistent with real time + direct claim invariants")
 }
 
